@@ -384,6 +384,16 @@ func decodeGoToSexpHelper(r interface{}, depth int, env *Zlisp, preferSym bool) 
 				pairs = append(pairs, ele)
 			}
 		}
+		// JSON and msgpack integers arrive as int64: a field declared uint64 takes them back as uint64
+		if rt := GoStructRegistry.Lookup(typeName); rt != nil && rt.UserStructDefn != nil {
+			for i := 0; i+1 < len(pairs); i += 2 {
+				ft := rt.UserStructDefn.FieldType[pairs[i].(*SexpSymbol).name]
+				n, isInt := pairs[i+1].(*SexpInt)
+				if ft != nil && ft.RegisteredName == "uint64" && isInt && n.Val >= 0 {
+					pairs[i+1] = &SexpUint64{Val: uint64(n.Val)}
+				}
+			}
+		}
 		hash, err := MakeHash(pairs, typeName, env)
 		// report a rejected field before anything else: the error must
 		// not be overwritten by the result of SetHashKeyOrder.
